@@ -24,9 +24,9 @@ def _hook(event, args):
             if mode and any(c in mode for c in "wax+"):
                 w = 1
             if w:
-                _state["events"].append(("open-write", os.fsdecode(path)))
+                _state["events"].append(("open-write", os.path.abspath(os.fsdecode(path))))
         elif event in _MUTATING:
-            paths = [os.fsdecode(a) for a in args if isinstance(a, (str, bytes, os.PathLike))]
+            paths = [os.path.abspath(os.fsdecode(a)) for a in args if isinstance(a, (str, bytes, os.PathLike))]
             _state["events"].append((event, paths[0] if paths else "?") if len(paths) < 2 else (event, paths[0], paths[1]))
     except Exception as e:  # never let the hook break the command
         _state["events"].append(("hook-error", repr(e)))
@@ -124,6 +124,7 @@ class CrashFS:
         self.ops = []
         self.targets = set()
         self.crashed = False
+        self.fired = False
         self._real_open = builtins.open
         self._real = {n: getattr(os, n) for n in ("mkdir", "rename", "replace", "remove", "rmdir", "unlink", "makedirs")}
 
@@ -143,10 +144,14 @@ class CrashFS:
             self.targets.add(os.path.relpath(os.fsdecode(dst), self.base))
         self.targets.add(rel)
         self.ops.append((kind, rel, n))
-        if self.crash_at is not None and self.crash_at[0] == idx:
+        if self.crash_at is not None and self.crash_at[0] == idx and not self.fired:
+            self.fired = True
             if self.crash_at[1] == "before":
                 self.crashed = True
                 raise CrashNow()
+            if self.crash_at[1] == "interrupt":
+                # like Ctrl-C / SIGTERM: the exception is delivered here, but clean-up code of the tool may still run
+                raise KeyboardInterrupt()
             return "half"
         return None
 
